@@ -17,11 +17,11 @@ distribution = poolcases.distribution
 
 def gen(rng, tier):
     n = {"quick": 120, "thorough": 1500, "search": 600}[tier]
-    return [poolcases.gen_keepalive_stop(rng) if i % 5 == 4 else poolcases.gen_case(rng, npools=1 if i % 3 else 2)
-            for i in range(n)]
+    return [poolcases.gen_keepalive_stop(rng) if i % 6 == 4 else poolcases.gen_keepalive_run(rng) if i % 6 == 5
+            else poolcases.gen_case(rng, npools=1 if i % 3 else 2) for i in range(n)]
 
 
 PINNED = ['C11_refuted_stolen_worker_wedges_pool', 'C11_single_pool', 'C11_count_exact']
 LEVEL_TEXT = "Same pool model and oracle; clauses: get_running_size is within [0, max], equals the number of legitimately parked workers after a pass with time left, is 0 after a successful stop; a stop with nothing left to do, no worker asleep and time to act in does not wait out its timeout. Theorem over ALL well-formed single-pool histories (premise wf_pool1c: wf_pool1t and no positive-timeout stop issued at clock u64::MAX): the oracle accepts the model's run, including the liveness half of the stop clause (with every task settled a stop's passes execute no task instruction, each full pass ends quiescent, so a StopTimeout leaves a parked worker), and the counter equals the number of live worker coroutines and stays within [0, max] after every prefix. With two pools REFUTED by a theorem (stolen worker accounted to the wrong pool), a recorded finding reproduced on the real code. Tied to /repo by histories on real pools compared in Coq, including pools with keep-alive and minimum size whose scheduling happens inside stop."
-LEVEL_NOTE = "Trusted: Coq kernel + vm_compute; hand transcription of co_pool/mod.rs, task.rs and the parts of scheduler.rs it uses (Sched/Pool.v over Sched/Sched.v, Coroutine/Co.v, Queue/OWS.v), validated on the sampled histories only; one scheduling thread at a time (the pool's scheduling half is !Sync), virtual clock (hooks H1/H2), DashMap/DashSet as association lists, process-global task/coroutine queues and cancel sets modelled as shared state of all pools. The single-pool theorems assume wf_pool1: ONE pool with min_size 0, keep_alive_time 0, max_size >= 1, operations naming submitted tasks, task bodies that keep the coroutine API contract (no self-cancel, syscall states well bracketed), clock steps not below the model clock; the evidence counts how many generated histories satisfy it (tag wf_pool1). Histories with two pools, or with keep-alive/min-size (keepalive_stop family), are covered by the correspondence and the oracle only. No axioms (every theorem closed under the global context)."
+LEVEL_NOTE = "Trusted: Coq kernel + vm_compute; hand transcription of co_pool/mod.rs, task.rs and the parts of scheduler.rs it uses (Sched/Pool.v over Sched/Sched.v, Coroutine/Co.v, Queue/OWS.v), validated on the sampled histories only; one scheduling thread at a time (the pool's scheduling half is !Sync), virtual clock (hooks H1/H2), DashMap/DashSet as association lists, process-global task/coroutine queues and cancel sets modelled as shared state of all pools. The single-pool theorems assume wf_pool1: ONE pool with min_size 0, ANY keep_alive_time, max_size >= 1, a clock that does not reach u64::MAX while a keep-alive is pending (for C01/C11), operations naming submitted tasks, task bodies that keep the coroutine API contract (no self-cancel, syscall states well bracketed), clock steps not below the model clock; the evidence counts how many generated histories satisfy it (tag wf_pool1). Histories with two pools, or with a minimum size, are covered by the correspondence and the oracle only. No axioms (every theorem closed under the global context)."
 TECHNIQUE = 'Coq proof (simulation invariant over all histories of a Gallina pool model; finite-state closure lifted to all schedules for the wait/notify and signal protocols) + differential correspondence inside Coq + forced real-thread schedules through cfg-guarded pause points'
